@@ -373,3 +373,83 @@ func init() {
 		return out
 	})
 }
+
+func init() {
+	opTimeout["c03par"] = 120 * time.Second
+	// c03par <nchan> names.. <rounds> <width>   one session; per round <width> logical connections are opened AT THE SAME TIME, each for a
+	//   name of the table chosen round-robin; every one must reach the target configured for ITS name
+	//  -> ok <n> wrong <n> failed <n> [first wrong: req <tag> got <tag>]
+	register("c03par", func(a []Tok) []Tok {
+		names, pos := parseNames(a, 0)
+		rounds, width := int(a[pos].I), int(a[pos+1].I)
+		dl := &dialLog{}
+		var table server.Channels
+		for i, n := range names {
+			table = append(table, &recChannel{name: n, tag: i, log: dl})
+		}
+		cl, sv := benignPipe()
+		h := server.VerifNewConnectionHandler(table)
+		if err := h.HandleConnection(sv); err != nil {
+			return []Tok{TW("handler-error")}
+		}
+		sess, err := smux.Client(cl, smuxCfg())
+		if err != nil {
+			return []Tok{TW("client-error")}
+		}
+		defer sess.Close()
+		var mu sync.Mutex
+		ok, wrong, failed := 0, 0, 0
+		firstReq, firstGot := -1, -1
+		for r := 0; r < rounds; r++ {
+			var wg sync.WaitGroup
+			start := make(chan struct{})
+			for j := 0; j < width; j++ {
+				wg.Add(1)
+				go func(want int) {
+					defer wg.Done()
+					<-start
+					st, err := sess.OpenStream()
+					if err != nil {
+						mu.Lock()
+						failed++
+						mu.Unlock()
+						return
+					}
+					defer st.Close()
+					st.SetDeadline(time.Now().Add(5 * time.Second))
+					if err := ms.SelectProtoOrFail("/"+names[want], st); err != nil {
+						mu.Lock()
+						failed++
+						mu.Unlock()
+						return
+					}
+					buf := make([]byte, 2)
+					if _, err := io.ReadFull(st, buf); err != nil {
+						mu.Lock()
+						failed++
+						mu.Unlock()
+						return
+					}
+					got := int(buf[0])<<8 | int(buf[1])
+					mu.Lock()
+					if got == want {
+						ok++
+					} else {
+						wrong++
+						if firstReq < 0 {
+							firstReq, firstGot = want, got
+						}
+					}
+					mu.Unlock()
+				}((r*width + j) % len(names))
+			}
+			close(start)
+			wg.Wait()
+		}
+		out := []Tok{TW("ok"), TIn(ok), TW("wrong"), TIn(wrong), TW("failed"), TIn(failed)}
+		if firstReq >= 0 {
+			out = append(out, TW("req"), TIn(firstReq), TW("got"), TIn(firstGot))
+		}
+		return out
+	})
+}
